@@ -19,6 +19,11 @@ CLAIMED = {
    note="Trusted: TLC, the arithmetic definitions in Encoding.tla (cross-checked by round trip and RFC test vectors inside MC_Encoding), neighbour bytes restricted to {00,FF} justified by the model-checked locality lemma. One recorded deviation (utf16 BOM).",
    technique="TLA+ byte-level encoding model checked with TLC (alignment theorem); TLC-generated payloads replayed into the modifiers; TLC judges recorded values",
    ref="6/C04"),
+ "C18": dict(level=MC,
+   text="TLC model-checks spec/Cidr.tla (prefix length stepped 0..32 over 5 base addresses: the octet-aligned block set is an exact disjoint cover; ExactCover detects a missing, an outside and an overlapping block; agreement with brute force for /24../32; RFC 5952 vectors; unsoundness witness for the IPv6 text-prefix algorithm). TLC-generated networks (every IPv4 prefix length, IPv6 0..128) are replayed into SigmaCIDRExpression.expand() and a native-CIDR backend; TLC decides IPv4 exactness by octet-interval arithmetic over the whole network (no sampling), IPv6 coverage on corner addresses in canonical text, and the native template fields.",
+   note="Trusted: TLC, Cidr.tla (interval arithmetic, RFC 5952 canonical form). IPv6 coverage is decided on <=36 corner addresses per network, not on all addresses. One recorded deviation (IPv6 text prefix).",
+   technique="TLA+ CIDR model checked with TLC; TLC-generated networks replayed into the code; TLC decides exact cover by interval arithmetic",
+   ref="6/C18"),
 }
 REASON_NOT_BUILT = "check not built yet in this round (see DESIGN.md section 6 for the planned TLA+ model); not claimed until its judge is sound"
 ALL = [f"C{i:02d}" for i in range(1, 21)]
